@@ -1,5 +1,6 @@
 import KrroodVerif.Sexp
 import KrroodVerif.Model.SymbolGraph
+import KrroodVerif.Model.SymbolGraphStep
 /-!
 Shared by the drivers of C13, C14, C20: the harness's class hierarchy and descriptor schema
 (`harness/props/_sg.py`), the history parser, and the run under rustworkx's LIFO node-index allocator with the
@@ -286,56 +287,14 @@ def parseX (xs : List Sexp) : Option (List XOp) :=
       pure (a ++ b)
   go 0 xs
 
-/-! ### stepwise (lazily consumed) evaluations — driver level, shared by C13 and C20 (see `Drive/C13.lean`) -/
+/-! ### stepwise (lazily consumed) evaluations — shared by C13 and C20
 
-structure Iter where
-  key : Nat
-  cls : Cls
-  started : Bool := false
-  walk : List Cls := []
-  cur : List Obj := []
-  yielded : List Obj := []
-  expected : List Obj := []
-  /-- 0 open, 1 stop, 2 raised -/
-  status : Nat := 0
+The walk itself is model level: `Model/SymbolGraphStep.lean` (`Iter`, `iterKey`, `setCache`, `Iter.begin`, `Iter.pull`,
+`advance`, `SRun`), the definitions `Props/C13Step.lean` proves `C13_stepwise_*` about. Here only the instance for the
+driver's allocator. (`Sfinal` is kept for the callers: the sweep of the first `next()` does not read the hierarchy.) -/
 
-def iterKey (k : Nat) : Nat := 500000 + k
-
-def setCache (st : DSt) (k : Nat) (ys : List Obj) : DSt :=
-  { st with h := { st.h with qvars := st.h.qvars.map (fun v =>
-      if v.key == iterKey k then { v with cache := some ys.eraseDups } else v) } }
-
-/-- one `next()`; `snap` = every class list copied when the evaluation starts (the behaviour F-C13-3 asks for; the code
-copies the list of a class when the walk reaches it); `skipDead` = an instance that died after the copy was taken is
-skipped (the code as it is, F-C13-4 repaired; before: yielded as `None`, the condition raises) -/
-def advance (q : Quirks) (snap skipDead : Bool) (S : Schema) (Sfinal : Schema) (st : DSt) (it : Iter) : DSt × Iter :=
-  if it.status != 0 then (st, it) else
-  let (st, it) :=
-    if it.started then (st, it)
-    else
-      let st := stepS Sfinal q st .sweep
-      let classes := if q.dupSubclasses then S.below it.cls else (S.below it.cls).eraseDups
-      let exp := st.h.expected S it.cls
-      if snap then
-        (st, { it with started := true, walk := [], expected := exp,
-                       cur := classes.flatMap fun c => (st.g.byClass.filter (fun w => w.cls == c)).map (·.obj) })
-      else (st, { it with started := true, walk := classes, expected := exp })
-  let rec go (fuel : Nat) (it : Iter) : DSt × Iter :=
-    match fuel with
-    | 0 => (st, it)
-    | fuel + 1 =>
-      match it.cur with
-      | o :: rest =>
-        if st.h.isLive o then
-          let it := { it with cur := rest, yielded := it.yielded ++ [o] }
-          (setCache st it.key it.yielded, it)
-        else if skipDead then go fuel { it with cur := rest }
-        else (st, { it with cur := rest, status := 2 })
-      | [] =>
-        match it.walk with
-        | c :: w => go fuel { it with walk := w, cur := (st.g.byClass.filter (fun x => x.cls == c)).map (·.obj) }
-        | [] => (st, { it with status := 1 })
-  go (it.walk.length + it.cur.length + st.g.byClass.length + 2) it
+def advance (q : Quirks) (snap skipDead : Bool) (S : Schema) (_Sfinal : Schema) (st : DSt) (it : Iter) : DSt × Iter :=
+  _root_.KrroodVerif.SG.advance q snap skipDead S lifo st it
 
 /-! canonical printing -/
 
